@@ -1,6 +1,7 @@
 /- Model/C06Gen.lean — the C06 model instantiated with the facts the translator extracted. -/
 import PsutilModel.Model.C06
 import PsutilModel.Model.C06Ext
+import PsutilModel.Model.C06Hist
 import PsutilModel.Generated.C06
 namespace Psutil.C06
 
@@ -55,5 +56,61 @@ def xcfg : XCfg :=
     threadsHitStartsFalse := Gen.C06.threadsHitStartsFalse
     nameExtendMin := Gen.C06.nameExtendMin
     nameExtendChecksPrefix := Gen.C06.nameExtendGuards.contains "os.fsencode(extended_name).startswith(bname)" }
+
+/-! ### histories: `oneshot()` and the `memoize_when_activated` caches (Model/C06Hist.lean) -/
+
+/-- `self.<m>` for a front-end method decorated with `@memoize_when_activated` -/
+def isFeMemoRecv (recv : String) : Bool := Gen.C06.feMemoized.any fun m => recv == "self." ++ m
+
+/-- `self.<m>` for a decorated method of the platform class -/
+def isPlMemoRecv (recv : String) : Bool := Gen.C06.plMemoized.any fun m => recv == "self." ++ m
+
+/-- the last (de)activation of a decorated platform function among the calls of `oneshot_enter` / `oneshot_exit`
+    (all decorated functions of one object share the one `_cache` slot) -/
+def lastSlotCall : List (String × String) → Option Bool
+  | [] => none
+  | c :: rest =>
+    match lastSlotCall rest with
+    | some b => some b
+    | none =>
+      if isPlMemoRecv c.1 && c.2 == "cache_activate" then some true
+      else if isPlMemoRecv c.1 && c.2 == "cache_deactivate" then some false
+      else none
+
+/-- what one call of `Process.oneshot()` does to the two `_cache` slots -/
+def actOf (c : String × String) : Act :=
+  if isFeMemoRecv c.1 && c.2 == "cache_activate" then .feOn
+  else if isFeMemoRecv c.1 && c.2 == "cache_deactivate" then .feOff
+  else if c.1 == "self._proc" && c.2 == "oneshot_enter" then
+    (match lastSlotCall Gen.C06.plEnterCalls with
+     | some true => .plOn
+     | some false => .plOff
+     | none => .other)
+  else if c.1 == "self._proc" && c.2 == "oneshot_exit" then
+    (match lastSlotCall Gen.C06.plExitCalls with
+     | some true => .plOn
+     | some false => .plOff
+     | none => .other)
+  else .other
+
+/-- the Python name of a getter -/
+def Getter.pyName : Getter → String
+  | .name => "name" | .ppid => "ppid" | .status => "status" | .cpuTimes => "cpu_times" | .cpuNum => "cpu_num"
+  | .terminal => "terminal" | .uids => "uids" | .gids => "gids" | .numThreads => "num_threads"
+  | .numCtxSwitches => "num_ctx_switches"
+
+def allGetters : List Getter :=
+  [.name, .ppid, .status, .cpuTimes, .cpuNum, .terminal, .uids, .gids, .numThreads, .numCtxSwitches]
+
+/-- configuration of the caching machinery as extracted from the current source -/
+def hcfg : HCfg :=
+  { enterActs := Gen.C06.oneshotEnter.map actOf
+    leaveActs := Gen.C06.oneshotLeave.map actOf
+    leaveExcActs := Gen.C06.oneshotLeaveExc.map actOf
+    nestedNoop := Gen.C06.oneshotIsContextManager && Gen.C06.oneshotNestedTest == "hasattr(self, '_cache')"
+      && Gen.C06.oneshotNestedBody == ["yield"]
+    feMemo := allGetters.filter fun g => Gen.C06.feMemoized.contains g.pyName
+    plMemoStat := Gen.C06.plMemoized.contains "_parse_stat_file"
+    plMemoStatus := Gen.C06.plMemoized.contains "_read_status_file" }
 
 end Psutil.C06
